@@ -57,10 +57,102 @@ def reset():
     del _CREATED[:]
 
 
+# ---- fork-free integer helpers ---------------------------------------------------------------------
+# Under CrossHair a Python `if` on a symbolic comparison forks the path.  Rope arithmetic (clamping
+# slice bounds, cutting spans) would multiply the paths of the code under test by distinctions the
+# code itself never makes, so it is expressed with z3 if-then-else terms instead; only the real
+# code's own branches (and the harness's final verdict) fork.  Outside CrossHair (concrete ints)
+# these helpers are plain Python.
+
+_CH = []
+
+
+def _chlib():
+    if not _CH:
+        import sys
+        if "crosshair" in sys.modules and api.MODE != "real":
+            import z3
+            from crosshair.libimpl import builtinslib as bl
+            from crosshair.tracers import NoTracing
+            _CH.append((z3, bl.SymbolicInt, bl.SymbolicBool, NoTracing))
+        else:
+            _CH.append(None)
+    return _CH[0]
+
+
+def ite(c, x, y):
+    """x if c else y, without forking when c is a symbolic bool and x, y are ints"""
+    lib = _chlib()
+    if lib is not None:
+        z3, SInt, SBool, NoTracing = lib
+        with NoTracing():
+            if isinstance(c, SBool):
+                if x is y:
+                    return x
+                xv = SInt._coerce_to_smt_sort(x)
+                yv = SInt._coerce_to_smt_sort(y)
+                if xv is not None and yv is not None:
+                    return SInt(z3.If(c.var, xv, yv))
+    return x if c else y
+
+
+def band(a, b):
+    lib = _chlib()
+    if lib is not None:
+        z3, SInt, SBool, NoTracing = lib
+        with NoTracing():
+            sa, sb = isinstance(a, SBool), isinstance(b, SBool)
+            if sa and sb:
+                return SBool(z3.And(a.var, b.var))
+            if sa and type(b) is bool:
+                return a if b else False
+            if sb and type(a) is bool:
+                return b if a else False
+    return True if (a and b) else False
+
+
+def bor(a, b):
+    lib = _chlib()
+    if lib is not None:
+        z3, SInt, SBool, NoTracing = lib
+        with NoTracing():
+            sa, sb = isinstance(a, SBool), isinstance(b, SBool)
+            if sa and sb:
+                return SBool(z3.Or(a.var, b.var))
+            if sa and type(b) is bool:
+                return True if b else a
+            if sb and type(a) is bool:
+                return True if a else b
+    return True if (a or b) else False
+
+
+def bnot(a):
+    lib = _chlib()
+    if lib is not None:
+        z3, SInt, SBool, NoTracing = lib
+        with NoTracing():
+            if isinstance(a, SBool):
+                return SBool(z3.Not(a.var))
+    return False if a else True
+
+
+def imin(x, y):
+    return ite(x <= y, x, y)
+
+
+def imax(x, y):
+    return ite(x >= y, x, y)
+
+
+def clamp(x, lo, hi):
+    """min(max(x, lo), hi)"""
+    return imin(imax(x, lo), hi)
+
+
 # ---- the Rope value (sym world) ----------------------------------------------------------------
 
 def _norm(segs):
-    """drop empty spans, merge adjacent ones (every comparison is decided by the solver)"""
+    """drop empty spans, merge adjacent ones (forks: every comparison is decided by the solver)"""
     out = []
     for (a, b) in segs:
         if b > a:
@@ -72,11 +164,13 @@ def _norm(segs):
 
 
 class Rope:
+    """segs: list of (start, end) with start <= end; empty spans may be present (dropping them would
+    need a fork); spans_of() gives the normal form."""
     __slots__ = ("segs",)
     _rope_marker = _MARK
 
-    def __init__(self, segs=(), _normalised=False):
-        self.segs = list(segs) if _normalised else _norm(segs)
+    def __init__(self, segs=()):
+        self.segs = list(segs)
 
     # pretend to be `bytes` for isinstance (plain interpreter: __class__; CrossHair: __ch_pytype__)
     @property
@@ -94,21 +188,23 @@ class Rope:
         return n
 
     def __bool__(self):
-        return True if len(self.segs) > 0 else False
+        if not self.segs:
+            return False
+        return True if self.__len__() > 0 else False
 
     def __add__(self, other):
         if is_rope(other):
             return Rope(self.segs + other.segs)
         if _is_real_bytes(other):
             if len(other) == 0:
-                return Rope(self.segs, True)
+                return Rope(self.segs)
             raise RopeContentAccess("rope + non-empty real bytes")
         return NotImplemented
 
     def __radd__(self, other):
         if _is_real_bytes(other):
             if len(other) == 0:
-                return Rope(self.segs, True)
+                return Rope(self.segs)
             raise RopeContentAccess("non-empty real bytes + rope")
         return NotImplemented
 
@@ -117,42 +213,44 @@ class Rope:
             raise RopeContentAccess("rope[i]: single byte access")
         if sl.step is not None and sl.step != 1:
             raise RopeContentAccess("rope slice with a step")
+        if not self.segs:
+            return Rope()
         n = self.__len__()
-        lo = 0 if sl.start is None else sl.start
-        hi = n if sl.stop is None else sl.stop
-        if lo < 0:
-            lo = lo + n
-            if lo < 0:
-                lo = 0
-        if hi < 0:
-            hi = hi + n
-            if hi < 0:
-                hi = 0
-        if hi > n:
+        # bytes slicing semantics: negative indices count from the end, everything is clamped
+        if sl.start is None:
+            lo = 0
+        else:
+            lo = sl.start
+            lo = ite(lo < 0, imax(lo + n, 0), imin(lo, n))
+        if sl.stop is None:
             hi = n
-        if lo >= hi:
-            return Rope((), True)
+        else:
+            hi = sl.stop
+            hi = ite(hi < 0, imax(hi + n, 0), imin(hi, n))
+            if sl.start is not None:
+                hi = imax(hi, lo)
         out = []
         pos = 0
         for (a, b) in self.segs:
             ln = b - a
-            s = lo - pos if lo > pos else 0
-            e = hi - pos if hi < pos + ln else ln
-            if e > s:
-                out.append((a + s, a + e))
+            s = 0 if sl.start is None else clamp(lo - pos, 0, ln)
+            e = ln if sl.stop is None else clamp(hi - pos, 0, ln)
+            out.append((a + s, a + e))
             pos = pos + ln
-        return Rope(out, True)      # pieces of a normalised rope stay normalised
+        return Rope(out)
 
     def __eq__(self, other):
         if _is_real_bytes(other):
             if len(other) == 0:
-                return False if self.segs else True
+                return self.__len__() == 0
             if not self.segs:
+                return False
+            if self.__len__() == 0:
                 return False
             raise RopeContentAccess("rope == non-empty bytes")
         if is_rope(other):
             if not self.segs or not other.segs:
-                return (not self.segs) and (not other.segs)
+                return self.__len__() == 0 and other.__len__() == 0
             raise RopeContentAccess("rope == rope (use rope.same in harness code)")
         return NotImplemented
 
@@ -160,7 +258,7 @@ class Rope:
         r = self.__eq__(other)
         if r is NotImplemented:
             return r
-        return not r
+        return bnot(r)
 
     def __repr__(self):
         return "<Rope>"
@@ -224,11 +322,11 @@ def span(a, b):
         if b > a:
             _CREATED.append((a, b))
         return master(a, b)
-    return Rope([(a, b)])
+    return Rope([(a, imax(a, b))])
 
 
 def empty():
-    return b"" if _real() else Rope((), True)
+    return b"" if _real() else Rope()
 
 
 def length(x):
@@ -300,9 +398,9 @@ def _real_decode(x):
 
 
 def spans_of(x):
-    """normalised list of (start, end) spans (non-empty, adjacent spans merged)"""
+    """normalised list of (start, end) spans (non-empty, adjacent spans merged); forks under CrossHair"""
     if is_rope(x):
-        return list(x.segs)
+        return _norm(x.segs)
     if len(x) == 0:
         return []
     if _real():
@@ -313,9 +411,13 @@ def spans_of(x):
 def is_span(x, a, b):
     """x is exactly master[a:b] (a <= b required)"""
     if is_rope(x):
-        if b <= a:
-            return False if x.segs else True
-        return len(x.segs) == 1 and x.segs[0][0] == a and x.segs[0][1] == b
+        # total length b - a, and every non-empty span sits at its place (one formula, no forks)
+        ok = True
+        pos = 0
+        for (p, q) in x.segs:
+            ok = band(ok, bor(q <= p, p == a + pos))
+            pos = pos + (q - p)
+        return band(ok, pos == imax(b - a, 0))
     if _real():
         return bytes(x) == master(a, b)
     return len(x) == 0 and b <= a
